@@ -265,7 +265,11 @@ def _run_lines(binary, mode, lines, timeout, nproc=None, extra_env=None, stall=N
     import threading
     import time as _time
     nproc = nproc or min(NCPU, max(1, len(lines) // 50))
-    chunks = [lines[i::nproc] for i in range(nproc)]
+    # contiguous blocks: neighbours in `lines` are converted one after the other by one process (a process keeps whatever
+    # hidden state a tree may have between them; checks place related inputs next to each other on purpose)
+    per = (len(lines) + nproc - 1) // nproc
+    chunks = [lines[i * per:(i + 1) * per] for i in range(nproc)]
+    chunks = [c for c in chunks if c]
     e = dict(os.environ)
     if extra_env:
         e.update(extra_env)
